@@ -346,6 +346,64 @@ impl<const N: usize, const MS: usize> StreamUniFullSync<N, MS> {
     fn reserve_send_or_cancel(&self, _v: u32) -> (u64, String) { panic!("the movable full-sync channel has no reservation API") }
 }
 
+/// a Multi (Arc) channel with `NS` listeners, each driven by the executor model (see stream_obj!)
+macro_rules! multi_stream_obj {
+    ($name:ident, $chan:ident) => {
+        struct $name<const N: usize, const MS: usize> {
+            chan: Arc<reactive_mutiny::prelude::advanced::$chan<u32, N, MS>>,
+            streams: Vec<Mutex<Option<std::pin::Pin<Box<dyn futures::Stream<Item = Arc<u32>> + Send>>>>>,
+            ended: Vec<std::sync::atomic::AtomicBool>,
+        }
+        impl<const N: usize, const MS: usize> $name<N, MS> {
+            fn new(ns: usize, parked: bool) -> Self {
+                use reactive_mutiny::prelude::*;
+                let chan: Arc<reactive_mutiny::prelude::advanced::$chan<u32, N, MS>> = ChannelCommon::new("c");
+                let mut streams = vec![]; let mut ended = vec![];
+                for i in 0..ns {
+                    let (st, id) = chan.create_stream_for_new_events(); assert_eq!(id as usize, i);
+                    let mut st: std::pin::Pin<Box<dyn futures::Stream<Item = Arc<u32>> + Send>> = Box::pin(st);
+                    if parked {
+                        let w = task_waker(i); let mut cx = std::task::Context::from_waker(&w);
+                        assert!(st.as_mut().poll_next(&mut cx).is_pending());
+                    }
+                    streams.push(Mutex::new(Some(st))); ended.push(std::sync::atomic::AtomicBool::new(false));
+                }
+                for w in WOKEN.iter() { w.store(false, SeqCst); }
+                Self { chan, streams, ended }
+            }
+        }
+        impl<const N: usize, const MS: usize> Obj for $name<N, MS> {
+            fn op(&self, name: &str, arg: u64, _prev: &[u64]) -> (u64, String) {
+                use reactive_mutiny::prelude::*;
+                match name {
+                    "send" => { let ok = self.chan.send(arg as u32).is_ok(); (ok as u64, format!("ok {}", ok)) }
+                    "cancel_all" => { self.chan.cancel_all_streams(); (0, "done".into()) }
+                    "drive" => {
+                        let i = arg as usize;
+                        let mut st = self.streams[i].lock().unwrap().take().unwrap();
+                        let w = task_waker(i); let mut cx = std::task::Context::from_waker(&w);
+                        let mut got: Vec<u32> = vec![];
+                        loop {
+                            match st.as_mut().poll_next(&mut cx) {
+                                std::task::Poll::Ready(Some(v)) => got.push(*v),
+                                std::task::Poll::Ready(None) => { self.ended[i].store(true, SeqCst); break; }
+                                std::task::Poll::Pending => { if !park(i) { break; } }
+                            }
+                        }
+                        std::mem::forget(st);
+                        (got.len() as u64, format!("got {}", got.iter().map(|v| v.to_string()).collect::<Vec<_>>().join(",")))
+                    }
+                    "pending" => { let l = self.chan.pending_items_count(); (l as u64, format!("len {}", l)) }
+                    "ended" => { let e = self.ended[arg as usize].load(SeqCst); (e as u64, format!("ended {}", e)) }
+                    _ => panic!("unknown op {}", name),
+                }
+            }
+        }
+    };
+}
+multi_stream_obj!(StreamMultiArcAtomic, ChannelMultiArcAtomic);
+multi_stream_obj!(StreamMultiArcFullSync, ChannelMultiArcFullSync);
+
 fn make_stream(kind: &str, n: usize) -> Option<Arc<dyn Obj>> {
     // kind = Stream<Chan>{Parked|Fresh}[:MS:NS]
     let mut parts = kind.split(':');
@@ -361,6 +419,8 @@ fn make_stream(kind: &str, n: usize) -> Option<Arc<dyn Obj>> {
     match chan {
         "StreamUniAtomic" => Some(inst!(StreamUniAtomic)),
         "StreamUniFullSync" => Some(inst!(StreamUniFullSync)),
+        "StreamMultiArcAtomic" => Some(inst!(StreamMultiArcAtomic)),
+        "StreamMultiArcFullSync" => Some(inst!(StreamMultiArcFullSync)),
         _ => None,
     }
 }
